@@ -788,8 +788,8 @@ impl PreferenceManager {
     fn reset_files_from_preference_change(&mut self, changed_pref: &str, changed_value: &str) -> Result<()> {       
         if changed_pref == "Language" && changed_value == "Auto" {
             // Language must have had a non-Auto value -- set LanguageAuto to old value so (probable) next change to LanguageAuto works well
-            self.api_prefs.prefs.insert("LanguageAuto".to_string(),
-                                self.api_prefs.prefs.get("Language").unwrap_or(&DEFAULT_LANG).clone() );
+            // Note: "Language" is a user pref (it is never in the api prefs)
+            self.api_prefs.prefs.insert("LanguageAuto".to_string(), Yaml::String(self.pref_to_string("Language")) );
             return Ok( () );
         }
 
